@@ -18,7 +18,8 @@
 (*    of labels, a label a sequence of octets (DESIGN Appendix A.1);       *)
 (*  - VIEW (what the property talks about): how the datagram relates to    *)
 (*    the transmission it arrives for:                                     *)
-(*       [ip, port, dec, id : BOOLEAN,                                     *)
+(*       [ip, port, dec (it is a DNS response: decodable, QR = 1), id :    *)
+(*        BOOLEAN,                                                         *)
 (*        qs : Seq([asked : BOOLEAN, exact : BOOLEAN])]                    *)
 (*    `View` maps the first to the second; `Matches` is defined on views.  *)
 (***************************************************************************)
@@ -69,13 +70,21 @@ Matches(v, caseRand) ==
     /\ \A i \in 1..Len(v.qs) : v.qs[i].asked /\ (caseRand => v.qs[i].exact)
 
 (***************************************************************************)
-(* What may happen to one examined datagram.  The property leaves open     *)
-(* whether a datagram that does not complete the query is skipped or ends  *)
-(* the query in an error; the only thing it forbids is acceptance of a     *)
-(* non-matching one.  It does not oblige an implementation to accept a     *)
-(* matching one either ("completes ONLY with ...").                        *)
+(* What may happen to one examined datagram.                               *)
+(*  - It completes the query only if it matches.  The property does not    *)
+(*    oblige an implementation to accept a matching one ("completes ONLY   *)
+(*    with ...").                                                          *)
+(*  - "other datagrams are skipped".  Whether a datagram that came from    *)
+(*    the queried address and port but is not an acceptable reply          *)
+(*    (undecodable, wrong ID, wrong question or case) is skipped or ends   *)
+(*    the query in an error is left open.  A datagram from ANYWHERE ELSE   *)
+(*    is ignored whatever its content: anybody can send one, so it may     *)
+(*    neither complete nor fail the query (it still counts as examined).   *)
 (***************************************************************************)
-Verdicts(v, caseRand) == {"skip", "fail"} \cup (IF Matches(v, caseRand) THEN {"accept"} ELSE {})
+FromServer(v) == v.ip /\ v.port
+Verdicts(v, caseRand) ==
+    {"skip"} \cup (IF FromServer(v) THEN {"fail"} ELSE {})
+             \cup (IF Matches(v, caseRand) THEN {"accept"} ELSE {})
 
 (***************************************************************************)
 (* Outcome of one transmission facing the arrival sequence s (views, all   *)
@@ -89,10 +98,15 @@ Verdicts(v, caseRand) == {"skip", "fail"} \cup (IF Matches(v, caseRand) THEN {"a
 (***************************************************************************)
 Out(o, ex, pos) == [o |-> o, ex |-> ex, pos |-> pos]
 
+\* an error after k examined datagrams needs a reason: nothing was examined yet (local failure),
+\* the k-th datagram came from the server (Fail), or the cap was reached (GiveUp)
+ErrorAt(s, k) == k = 0 \/ k = Cap \/ FromServer(s[k])
+
 Allowed(s, caseRand) ==
     LET n == Least(Cap, Len(s)) IN
     {Out("accept", i, i) : i \in {j \in 1..n : Matches(s[j], caseRand)}}
-    \cup {Out(x, k, 0) : x \in {"error", "timeout"}, k \in 0..n}
+    \cup {Out("timeout", k, 0) : k \in 0..n}
+    \cup {Out("error", k, 0) : k \in {j \in 0..n : ErrorAt(s, j)}}
 
 (***************************************************************************)
 (* Prompt = the outcomes of an implementation that, in addition, never     *)
@@ -107,7 +121,7 @@ PromptFrom(s, k, caseRand) ==
     IF k = Cap THEN {Out("error", k, 0), Out("timeout", k, 0)}
     ELSE IF k = Len(s) THEN {Out("timeout", k, 0)}
     ELSE IF Matches(s[k + 1], caseRand) THEN {Out("accept", k + 1, k + 1)}
-    ELSE {Out("error", k + 1, 0)} \cup PromptFrom(s, k + 1, caseRand)
+    ELSE (IF FromServer(s[k + 1]) THEN {Out("error", k + 1, 0)} ELSE {}) \cup PromptFrom(s, k + 1, caseRand)
 Prompt(s, caseRand) == PromptFrom(s, 0, caseRand)
 
 (***************************************************************************)
@@ -123,8 +137,15 @@ QBad  == [asked |-> FALSE, exact |-> FALSE]    \* a question that was not asked
 
 Genuine(nq) == [ip |-> TRUE, port |-> TRUE, dec |-> TRUE, id |-> TRUE, qs |-> [i \in 1..nq |-> QOk]]
 
+\* "not a DNS response" shapes: garbage (a header announcing a question that is cut off), short
+\* (fewer than 12 octets), queryCopy (the request itself reflected: QR = 0); each from the server,
+\* from another address (..Off) and from another port of the server's address (..Port)
 Kinds == {"genuine", "srcIp", "srcPort", "id", "qname", "qcase", "qtype", "qclass", "extraQ",
-          "garbage", "noQ", "subsetQ", "garbageOff"}
+          "noQ", "subsetQ",
+          "garbage", "garbageOff", "garbagePort", "short", "shortOff", "shortPort",
+          "queryCopy", "queryOff", "queryPort"}
+
+NotResp(ipOk, portOk) == [ip |-> ipOk, port |-> portOk, dec |-> FALSE, id |-> FALSE, qs |-> <<>>]
 
 KindView(k, nq) ==
     LET g == Genuine(nq) IN
@@ -139,6 +160,7 @@ KindView(k, nq) ==
       [] k = "extraQ"     -> [g EXCEPT !.qs = Append(g.qs, QBad)]       \* asked ones plus one more
       [] k = "noQ"        -> [g EXCEPT !.qs = <<>>]                     \* empty question section
       [] k = "subsetQ"    -> [g EXCEPT !.qs = <<QOk>>]                  \* only the first asked one
-      [] k = "garbage"    -> [ip |-> TRUE,  port |-> TRUE, dec |-> FALSE, id |-> FALSE, qs |-> <<>>]
-      [] k = "garbageOff" -> [ip |-> FALSE, port |-> TRUE, dec |-> FALSE, id |-> FALSE, qs |-> <<>>]
+      [] k \in {"garbage", "short", "queryCopy"}         -> NotResp(TRUE, TRUE)
+      [] k \in {"garbageOff", "shortOff", "queryOff"}    -> NotResp(FALSE, TRUE)
+      [] k \in {"garbagePort", "shortPort", "queryPort"} -> NotResp(TRUE, FALSE)
 =============================================================================
